@@ -559,6 +559,72 @@ class Raises:
                     frames, out)
                 return
 
+    def _shape(self, fi, node):
+        """The construct as text with the names of the function's locals
+        and parameters blanked (self excepted): what identifies a finding
+        must not change when a variable is renamed."""
+        cache = self.__dict__.setdefault('_shape_cache', {})
+        key = id(node)
+        if key in cache:
+            return cache[key]
+        lc = self.__dict__.setdefault('_locals_cache', {})
+        if fi.qual in lc:
+            return self._shape_with(node, lc[fi.qual], cache)
+        loc = set(fi.params) | set(fi.kwonly)
+        if fi.vararg:
+            loc.add(fi.vararg)
+        if fi.kwarg:
+            loc.add(fi.kwarg)
+        for n in walk_own(fi.node):
+            if isinstance(n, ast.Name) and isinstance(n.ctx, (ast.Store,
+                                                               ast.Del)):
+                loc.add(n.id)
+            elif isinstance(n, ast.ExceptHandler) and n.name:
+                loc.add(n.name)
+        loc.discard('self')
+        lc[fi.qual] = loc
+        return self._shape_with(node, loc, cache)
+
+    def _shape_with(self, node, loc, cache):
+        # blank the names in place, print, restore (no copies: nodes carry
+        # back-references to the whole tree)
+        touched = []
+        for n in ast.walk(node):
+            if isinstance(n, ast.Name) and n.id in loc:
+                touched.append((n, n.id))
+                n.id = '_'
+        try:
+            cache[id(node)] = unparse(node)[:60]
+            return cache[id(node)]
+        finally:
+            for n, old in touched:
+                n.id = old
+
+    def mapping_instance(self, atoms):
+        """Is one of the types an instance of an h2 class that inherits a
+        mapping (dict, OrderedDict, MutableMapping) and does not define
+        __getitem__ itself?  Its subscripts raise KeyError, not IndexError."""
+        for a in atoms:
+            if a[0] != 'inst':
+                continue
+            seen = set()
+            stack = [a[1]]
+            while stack:
+                cq = stack.pop()
+                if cq in seen:
+                    continue
+                seen.add(cq)
+                c = self.m.classes.get(cq)
+                if c is None:
+                    continue
+                for b in c.bases:
+                    if b in ('dict', 'OrderedDict', 'MutableMapping',
+                             'Mapping', 'defaultdict', 'UserDict'):
+                        return True
+                    stack.extend(q for q, c2 in self.m.classes.items()
+                                 if c2.name == b)
+        return False
+
     def _partial(self, fi, node, kind, frames, out):
         """Subscript load / delete as a partial operation."""
         base_t = self.r.type_of(node.value, fi)
@@ -574,6 +640,8 @@ class Raises:
                     self._call_h2(fi, node, meth, frames, out)
                     return
         kinds = {a[0] for a in base_t}
+        if self.mapping_instance(base_t):
+            kinds = (kinds - {'inst'}) | {'dict'}
         if 'dict' in kinds and not (kinds & {'list', 'tuple', 'prim'}):
             excs = ['KeyError']
         elif kinds and not ('dict' in kinds):
@@ -591,7 +659,7 @@ class Raises:
                 excs = ['IndexError']
         for exc in excs:
             op = PartialOp(kind, node, exc, fi,
-                           '%s %s' % (kind, unparse(node)[:60]))
+                           '%s %s' % (kind, self._shape(fi, node)))
             self.partial_ops.append(op)
             if id(node) in self.discharged:
                 continue
@@ -661,8 +729,8 @@ class Raises:
                 self._op(fi, call, name, x, frames, out)
 
     def _op(self, fi, node, what, exc, frames, out):
-        op = PartialOp('call', node, exc, fi, '%s %s' % (what,
-                                                         unparse(node)[:60]))
+        op = PartialOp('call', node, exc, fi, '%s %s' % (
+            what, self._shape(fi, node)))
         self.partial_ops.append(op)
         if (id(node), exc) in self.discharged:
             return
